@@ -33,7 +33,7 @@ def optVal (a : Args) (k : String) : Option (Option Val) :=
   | some "default" => some none
   | some s => (parseVal s).map some
 
-def errLine (e : Err) : String := "err " ++ e.tag
+def errLine (e : Err) : String := if e == .inexact then "inexact" else "err " ++ e.tag
 
 def showState (m : MapObj) : String :=
   "cov=" ++ showList toString m.st.cov.toList ++ " sp=" ++ showVals m.st.sp.toList
@@ -85,6 +85,103 @@ def stepArgs (w : World) (op : String) (a : Args) : World × String :=
         match apiUpdateRanges m (a.getD "op" "replace") R v (a.getD "path" "slice" == "slice") with
         | .ok m' => (w.put n m', "ok")
         | .error e => (w.put n { m with cache := none }, errLine e)
+  | "sop" => withMap w a fun m =>
+    let n := a.pos.headD ""
+    let k? : Option Scalar :=
+      match a.get? "bits", a.get? "k" with
+      | some b, _ => (parseNats b).map .bits
+      | none, some t =>
+        if a.getD "ktype" "int" == "int" then t.toInt?.map .int else (parseDy t).map .flt
+      | none, none => none
+    match k? with
+    | none => (w, "bad-op:k")
+    | some k =>
+      let inPlace := a.flag "inplace"
+      let m0 := if inPlace then { m with cache := none } else m
+      match apiScalarOp m (a.getD "op" "add") k with
+      | .ok st =>
+        if inPlace then (w.put n { m0 with st := st }, "ok")
+        else (w.put (a.getD "r" "tmp") { m with st := st, cache := none }, "ok")
+      | .error e =>
+        -- the cache reset happens only after the first validation checks (line 2376)
+        let early := (match m.kind with | .recd _ _ => true | _ => false) || m.kind.isBool ||
+          (intOnlyOp (a.getD "op" "add") && !m.kind.isIntegerMap) ||
+          (!intOnlyOp (a.getD "op" "add") && (match m.kind with | .wide _ => true | _ => false))
+        ((if inPlace && !early then w.put n m0 else w), errLine e)
+  | "mask" => withMap w a fun m =>
+    let n := a.pos.headD ""
+    match w.get? (a.getD "by" "") with
+    | none => (w, "bad-op:no-such-map")
+    | some mk =>
+      let bits := (a.get? "bits").bind String.toInt?
+      let arr := (a.get? "bitarr").bind parseNats
+      match apiApplyMask m mk bits arr with
+      | .ok st =>
+        if a.flag "inplace" then (w.put n { m with st := st, cache := none }, "ok")
+        else (w.put (a.getD "r" "tmp") { m with st := st, cache := none }, "ok")
+      | .error e => (w, errLine e)
+  | "astype" => withMap w a fun m =>
+    match (a.get? "dtype").bind parseDT, optVal a "sentinel" with
+    | some dt, some sent =>
+      (match apiAstype m dt sent with
+       | .ok m' => (w.put (a.getD "r" "tmp") m', "ok")
+       | .error e => (w, errLine e))
+    | _, _ => (w, "bad-op:astype")
+  | "pack" => withMap w a fun m =>
+    match apiAsBitPacked m with
+    | .ok m' => (w.put (a.getD "r" "tmp") m', "ok")
+    | .error e => (w, errLine e)
+  | "bop" => withMap w a fun m =>
+    let n := a.pos.headD ""
+    let rhs? : Option BoolRhs :=
+      match a.get? "const", a.get? "rhs" with
+      | some "T", _ => some (.const true)
+      | some "F", _ => some (.const false)
+      | _, some r => (w.get? r).map .map
+      | _, _ => none
+    match rhs? with
+    | none => (w, "bad-op:rhs")
+    | some rhs =>
+      let inPlace := a.flag "inplace"
+      match apiBoolOp m (a.getD "op" "and") rhs inPlace with
+      | .ok st =>
+        if inPlace then (w.put n { m with st := st, cache := none }, "ok")
+        else (w.put (a.getD "r" "tmp") { m with st := st, cache := none }, "ok")
+      | .error e => ((if inPlace && m.kind.isBool then w.put n { m with cache := none } else w), errLine e)
+  | "inv" => withMap w a fun m =>
+    let n := a.pos.headD ""
+    match apiInvert m with
+    | .ok st =>
+      if a.flag "inplace" then (w.put n { m with st := st, cache := none }, "ok")
+      else (w.put (a.getD "r" "tmp") { m with st := st, cache := none }, "ok")
+    | .error e => (w, errLine e)
+  | "bits" => withMap w a fun m =>
+    let n := a.pos.headD ""
+    match parseNats (a.getD "pix" "_"), parseNats (a.getD "bits" "_") with
+    | some pix, some bits =>
+      (match apiSetBits m pix bits (a.getD "mode" "set" == "clear") with
+       | .ok m' => (w.put n m', "ok")
+       | .error e => (w, errLine e))
+    | _, _ => (w, "bad-op:bits")
+  | "chk" => withMap w a fun m =>
+    match parseNats (a.getD "pix" "_"), parseNats (a.getD "bits" "_") with
+    | some pix, some bits =>
+      (match apiCheckBits m pix bits with
+       | .ok l => (w, showBits l)
+       | .error e => (w, errLine e))
+    | _, _ => (w, "bad-op:chk")
+  | "copy" => withMap w a fun m => (w.put (a.getD "r" "tmp") { m with cache := none }, "ok")
+  | "info" => withMap w a fun m =>
+    let dts : DT → String := fun dt => match dt with
+      | .int b sg => (if sg then "i" else "u") ++ toString (b / 8)
+      | .flt b => "f" ++ toString (b / 8)
+      | .bool => "b1"
+    let k := match m.kind with
+      | .plain dt => "plain:" ++ dts dt
+      | .packed => "packed"
+      | .wide n => "wide:" ++ toString n
+      | .recd fs pr => "rec:" ++ ",".intercalate (fs.map dts) ++ ":" ++ toString pr
+    (w, s!"kind={k} covord={m.covord} spord={m.spord} sentinel={showVal m.sent}")
   | "vals" => withMap w a fun m => (w, showVals ((List.range m.npix).map m.abs))
   | "get" => withMap w a fun m =>
     let pix? : Option (List Nat) :=
